@@ -567,6 +567,97 @@ fn concurrent_resolves(rep: &mut Report, thorough: bool) {
     }
 }
 
+/// UDP associations: the real target that `Client::create_udp_proxy` puts into the initial request of the
+/// UDP-over-TCP stream, as decrypted by a scripted TLS server behind the in-memory dialer seam.
+fn udp_association_targets(rep: &mut Report, thorough: bool) {
+    use crate::cworld::*;
+    let mut hosts: Vec<&str> = vec!["0.0.0.0", "127.0.0.1", "1.2.3.4", "255.255.255.255", "::", "::1", "::2", "::7f00:1", "::1.2.3.4", "::ffff:1.2.3.4", "::ffff:0:1", "64:ff9b::102:304", "1:2:3:4:5:6:7:8", "2001:db8::1", "fe80::1", "ff02::1", "ffff:ffff:ffff:ffff:ffff:ffff:ffff:ffff"];
+    if thorough {
+        hosts.extend(["::ffff:127.0.0.1", "::0.0.0.1", "0:0:0:0:0:1::", "100::", "10.20.30.40", "0.0.0.1"]);
+    }
+    let ports: Vec<u16> = if thorough { vec![0, 1, 53, 255, 256, 443, 32767, 32768, 65534, 65535] } else { vec![0, 53, 255, 256, 32768, 65535] };
+    let mut targets: Vec<SocketAddr> = vec![];
+    for h in &hosts {
+        for p in &ports {
+            targets.push(SocketAddr::new(h.parse().unwrap(), *p));
+        }
+    }
+    let n = targets.len();
+    let targets = Arc::new(targets);
+    let t2 = targets.clone();
+    let res: Vec<Result<Vec<Vec<u8>>, String>> = par_map(n, 16, move |i| {
+        let target = t2[i];
+        let slot: Arc<Mutex<Option<Result<Vec<Vec<u8>>, String>>>> = Arc::new(Mutex::new(None));
+        let slot2 = slot.clone();
+        let sc = scenario(move || {
+            let slot2 = slot2.clone();
+            async move {
+                let w = CWorld::start(padding(STOP0), quiet_pool(1), Answer::Ok);
+                let r = within(w.client.create_udp_proxy("127.0.0.1:0", target)).await;
+                tokio::time::sleep(Duration::from_secs(1)).await;
+                let logs = w.logs();
+                let out = match r {
+                    Some(Ok(_)) => Ok(logs.iter().flat_map(|l| l.frames.iter().filter(|f| f.cmd == PSH).map(|f| f.data.clone())).collect::<Vec<_>>()),
+                    Some(Err(e)) => Err(format!("create_udp_proxy failed: {e}")),
+                    None => Err("create_udp_proxy blocked".to_string()),
+                };
+                *slot2.lock().unwrap() = Some(out);
+                drop(w);
+                Outcome::default()
+            }
+        });
+        let mut cfg = ExecCfg::default();
+        cfg.enable_io = true; // create_udp_proxy binds a real local UDP socket
+        let rec = run_exec(&sc, &cfg, &[], 0);
+        if let Some(v) = rec.outcome.violations.first() {
+            return Err(format!("scenario failed: {}", v.detail));
+        }
+        slot.lock().unwrap().take().unwrap_or(Err("no result".into()))
+    });
+    // the same host may be spelled as an IPv4 address or as its IPv4-mapped IPv6 form; nothing else is "the same"
+    let canon = |a: SocketAddr| -> SocketAddr {
+        match a {
+            SocketAddr::V6(v) => match v.ip().to_ipv4_mapped() {
+                Some(m) => SocketAddr::new(IpAddr::V4(m), v.port()),
+                None => a,
+            },
+            _ => a,
+        }
+    };
+    for (i, r) in res.into_iter().enumerate() {
+        let target = targets[i];
+        rep.case(Some(&format!("udp association to {target}")));
+        let replay = json!({"engine": "IX", "udp_target": target.to_string()});
+        let frames = match r {
+            Ok(f) => f,
+            Err(e) => {
+                rep.violation("C07:udp-association-failed", &format!("UDP association to {target}: {e}"), replay);
+                continue;
+            }
+        };
+        // first data frame: the magic destination; second: the initial request  01 | atyp | addr | port
+        let Some(req) = frames.get(1) else {
+            rep.violation("C07:udp-association-failed", &format!("UDP association to {target}: no initial request reached the server ({} data frames)", frames.len()), replay);
+            continue;
+        };
+        let decoded: Option<SocketAddr> = match (req.first(), req.get(1)) {
+            (Some(1), Some(1)) if req.len() == 8 => Some(SocketAddr::new(IpAddr::from([req[2], req[3], req[4], req[5]]), u16::from_be_bytes([req[6], req[7]]))),
+            (Some(1), Some(4)) if req.len() == 20 => {
+                let mut o = [0u8; 16];
+                o.copy_from_slice(&req[2..18]);
+                Some(SocketAddr::new(IpAddr::from(o), u16::from_be_bytes([req[18], req[19]])))
+            }
+            _ => None,
+        };
+        match decoded {
+            None => rep.violation("C07:udp-target-altered", &format!("UDP association to {target}: the initial request {:02x?} is not a well-formed connect request", req), replay),
+            Some(d) if canon(d) != canon(target) => rep.violation("C07:udp-target-altered", &format!("UDP association to {target}: the initial request names {d} ({:02x?})", req), replay),
+            Some(_) => {}
+        }
+    }
+    rep.sections.insert("udp_association_targets".into(), json!(n));
+}
+
 pub fn run(tier: Tier) -> i32 {
     let mut rep = Report::new("C07", tier, "exploration");
     let thorough = tier.is_thorough();
@@ -574,6 +665,7 @@ pub fn run(tier: Tier) -> i32 {
         "names resolve through the public set_custom_dns_servers() pointing at a harness DNS stub (trust-dns branch) and through /etc/hosts 'localhost' (system branch); real DNS and non-loopback dialling are out of reach".into(),
         "cache expiry is driven through the H9 hook (std::time::Instant cannot be virtualised)".into(),
     ];
+    udp_association_targets(&mut rep, thorough);
     // (a) destinations
     let mut dests: Vec<(String, u16)> = vec![];
     let v4 = ["0.0.0.0", "127.0.0.1", "1.2.3.4", "255.255.255.255", "10.20.30.40"];
@@ -633,5 +725,5 @@ pub fn run(tier: Tier) -> i32 {
         dial_cases(&mut rep).await;
     });
     drop(rt);
-    rep.finish("IX/DET: destinations {5 IPv4, 5 IPv6} x boundary ports, every domain length 1..=256 (ASCII and multi-byte), almost-addresses, port sweep (thorough: all 65536 ports x 3 address types) through the real Client::create_proxy_stream and the real server-side parser; destination header cut into <=3 frames at every position; BX: every resolve/age/clear history up to depth 3 (4) on both resolver branches; SEMI: every (name|literal, listener) pair through the real TcpProxyHandler incl. names containing the UDP magic string; non-trivial = distinct destination / cut pattern / history with >= 2 distinct (host,port) requests / dial request")
+    rep.finish("IX/DET: destinations {5 IPv4, 5 IPv6} x boundary ports, every domain length 1..=256 (ASCII and multi-byte), almost-addresses, port sweep (thorough: all 65536 ports x 3 address types) through the real Client::create_proxy_stream and the real server-side parser; destination header cut into <=3 frames at every position; UDP associations: the target named in the initial request written by the real Client::create_udp_proxy (in-memory dialer seam) for 17 (23) address shapes x boundary ports; BX: every resolve/age/clear history up to depth 3 (4) on both resolver branches; SEMI: every (name|literal, listener) pair through the real TcpProxyHandler incl. names containing the UDP magic string; non-trivial = distinct destination / cut pattern / history with >= 2 distinct (host,port) requests / dial request")
 }
